@@ -78,9 +78,56 @@ def regen(ctx=None):
     write_if_changed(os.path.join(LEAN, "Generated.lean"),
                      "-- root of the Generated library (rewritten from the live /repo by harness/regen.py)\n"
                      "import Generated.Constants\nimport Generated.Registry\n")
+    c3 = regen_knn_decision()
+    write_if_changed(os.path.join(LEAN, "Generated.lean"),
+                     "-- root of the Generated library (rewritten from the live /repo by harness/regen.py)\n"
+                     "import Generated.Constants\nimport Generated.Registry\nimport Generated.KnnDecision\n")
     if ctx is not None:
-        ctx.notes.append(f"regen: Constants changed={c1}, Registry changed={c2}")
-    return c1 or c2
+        ctx.notes.append(f"regen: Constants changed={c1}, Registry changed={c2}, KnnDecision changed={c3}")
+    return c1 or c2 or c3
+
+
+def observe_knn_decision(cols, k, rows, n, force):
+    """what the live UMAP decides for a precomputed_knn of shape (rows, cols) on n samples:
+    (ignored, columns used, force_approximation_algorithm afterwards)"""
+    import warnings
+    import numpy as np
+    import umap
+    idx = np.zeros((rows, cols), dtype=np.int64)
+    dst = np.zeros((rows, cols), dtype=np.float32)
+    m = umap.UMAP(n_neighbors=k, precomputed_knn=(idx, dst), force_approximation_algorithm=force)
+    with warnings.catch_warnings():
+        warnings.simplefilter("ignore")
+        # the preamble of fit(), then the validation itself
+        m._raw_data = np.zeros((n, 2), dtype=np.float32)
+        m._initial_alpha = m.learning_rate
+        m.knn_indices, m.knn_dists = m.precomputed_knn[0], m.precomputed_knn[1]
+        m.knn_search_index = None
+        m._validate_parameters()
+    if m.knn_dists is None:
+        return True, 0, bool(force)
+    return False, int(m.knn_dists.shape[1]), bool(m.force_approximation_algorithm)
+
+
+KNN_GRID = [(cols, 5, rows, n, force)
+            for cols in (3, 5, 8) for (rows, n) in ((30, 30), (30, 31), (4096, 4096), (4096, 4000))
+            for force in (False, True)]
+
+
+def regen_knn_decision():
+    rows_ = []
+    for (cols, k, rows, n, force) in KNN_GRID:
+        ign, used, f2 = observe_knn_decision(cols, k, rows, n, force)
+        b = lambda x: "true" if x else "false"
+        rows_.append(f"(({cols}, {k}, {rows}, {n}, {b(force)}, ({b(ign)}, {used}, {b(f2)})))")
+    out = ["/- GENERATED from the live /repo package by harness/regen.py — do not edit.",
+           "   Observed behaviour of UMAP._validate_parameters on the precomputed_knn abstraction grid:",
+           "   (cols, k, rows, n, force) ↦ (ignored, columns used, force flag afterwards). -/",
+           "namespace Umap.Generated\n",
+           "def knnDecisionTable : List (Nat × Nat × Nat × Nat × Bool × (Bool × Nat × Bool)) := [",
+           ",\n  ".join(rows_) + "]",
+           "\nend Umap.Generated"]
+    return write_if_changed(os.path.join(LEAN, "Generated", "KnnDecision.lean"), "\n".join(out) + "\n")
 
 
 if __name__ == "__main__":
